@@ -177,6 +177,21 @@ func (e *enc) importedPkg(env *Env, name string) *types.Package {
 	if env.tpkg == nil {
 		return nil
 	}
+	// import aliases used in the package's source files take precedence
+	if pk := e.p.allPkgs[env.tpkg.Path()]; pk != nil {
+		for _, f := range pk.Syntax {
+			for _, is := range f.Imports {
+				if is.Name != nil && is.Name.Name == name {
+					path := strings.Trim(is.Path.Value, "\"")
+					for _, im := range env.tpkg.Imports() {
+						if im.Path() == path {
+							return im
+						}
+					}
+				}
+			}
+		}
+	}
 	for _, im := range env.tpkg.Imports() {
 		if im.Name() == name {
 			return im
@@ -551,6 +566,25 @@ func (e *enc) evalCall(n *SCall, env *Env) SVal {
 			r = fmt.Sprintf("(strcat %s %s)", r, arg(i).t)
 		}
 		return SVal{t: r, sort: "Str", typ: types.Typ[types.String]}
+	case "iface":
+		// iface(x): the interface value holding the typed value x
+		v := arg(0)
+		if v.typ == nil {
+			env.fail("iface() of untyped value")
+		}
+		if v.sort == "Iface" {
+			return v
+		}
+		id := e.typeID(v.typ)
+		fn := fmt.Sprintf("mkiface_%d", id)
+		un := fmt.Sprintf("ival_%d", id)
+		e.declareFun(fn, fmt.Sprintf("(%s) Iface", v.sort))
+		e.declareFun(un, fmt.Sprintf("(Iface) %s", v.sort))
+		r := fmt.Sprintf("(%s %s)", fn, v.t)
+		if !strings.Contains(r, "q_") {
+			e.assertOnce(fmt.Sprintf("(and (not (= %s inil)) (= (itype %s) %d) (= (%s %s) %s))", r, r, id, un, r, v.t))
+		}
+		return SVal{t: r, sort: "Iface"}
 	case "isnil":
 		v := arg(0)
 		if v.sort == "Slice" {
@@ -582,9 +616,10 @@ func (e *enc) evalCall(n *SCall, env *Env) SVal {
 				as = append(as, v.t)
 				sorts = append(sorts, sortOf(gf.Params[i].Type()))
 			}
-			for _, s := range e.p.mods[gf].heapArgs() {
-				sorts = append(sorts, "(Array Ref "+s+")")
-				as = append(as, e.heapNamed(env.st, s))
+			for _, fp := range e.p.mods[gf].footprints() {
+				t, s := e.heapArgTerm(env.st, fp)
+				sorts = append(sorts, s)
+				as = append(as, t)
 			}
 			res := gf.Signature.Results()
 			if res.Len() >= 1 {
@@ -595,7 +630,45 @@ func (e *enc) evalCall(n *SCall, env *Env) SVal {
 					return SVal{t: fnm, sort: rs, typ: res.At(0).Type()}
 				}
 				e.declareFun(fnm, fmt.Sprintf("(%s) %s", strings.Join(sorts, " "), rs))
-				return SVal{t: fmt.Sprintf("(%s %s)", fnm, strings.Join(as, " ")), sort: rs, typ: res.At(0).Type()}
+				rt := fmt.Sprintf("(%s %s)", fnm, strings.Join(as, " "))
+				// the function's own (verified) contract holds for this application
+				if fc := e.p.contracts[gname]; fc != nil && !strings.Contains(rt, "q_") && !e.asserted["fnax|"+rt] {
+					e.asserted["fnax|"+rt] = true
+					cenv := &Env{e: e, st: env.st, old: env.st, bound: map[string]SVal{}, lvals: map[string]lval{}, pkg: env.pkg, tpkg: env.tpkg}
+					f := gf
+					for f.Pkg == nil && f.Parent() != nil {
+						f = f.Parent()
+					}
+					if f.Pkg != nil {
+						cenv.tpkg, cenv.pkg = f.Pkg.Pkg, f.Pkg.Pkg.Name()
+					}
+					for i, pr := range gf.Params {
+						cenv.bound[pr.Name()] = SVal{t: as[i], typ: pr.Type(), sort: sortOf(pr.Type())}
+					}
+					rsv := SVal{t: rt, typ: res.At(0).Type(), sort: rs}
+					cenv.bound["ret0"], cenv.bound["result"] = rsv, rsv
+					if nm := res.At(0).Name(); nm != "" && nm != "_" {
+						cenv.bound[nm] = rsv
+					}
+					pre := "true"
+					okAll := true
+					for _, rq := range fc.requires {
+						g, ok := e.tryEvalBool(rq.expr, cenv, "requires of "+gname)
+						if !ok {
+							okAll = false
+							break
+						}
+						pre = and(pre, g)
+					}
+					if okAll && res.Len() == 1 {
+						for _, en := range fc.ensures {
+							if g, ok := e.tryEvalBool(en.expr, cenv, "ensures of "+gname); ok {
+								e.assert(implies(pre, g))
+							}
+						}
+					}
+				}
+				return SVal{t: rt, sort: rs, typ: res.At(0).Type()}
 			}
 		}
 	}
